@@ -190,9 +190,10 @@ def post(results, fails, counters):
         base = rs[0]["extra"].get("outcomes", {})
         for r in rs[1:]:
             o = r["extra"].get("outcomes", {})
-            for k in set(base) | set(o):
+            # only cases both runs reached are compared: under load a worker may stop at its soft deadline
+            for k in set(base) & set(o):
                 compared += 1
-                if base.get(k) != o.get(k):
+                if base[k] != o[k]:
                     fails.append({"mech": None, "what": f"outcome differs between PYTHONHASHSEED={rs[0]['hashseed']} and {r['hashseed']}",
                                   "case": {"shard": sh, "case_hash": k, "hashseeds": [rs[0]["hashseed"], r["hashseed"]]},
                                   "detail": {"a": base.get(k), "b": o.get(k)}})
